@@ -16,6 +16,7 @@ import (
 	"strings"
 	"sync/atomic"
 	"testing"
+	"testing/synctest"
 	"time"
 
 	"github.com/libp2p/go-libp2p/core/record"
@@ -108,7 +109,7 @@ func c09OpClass(o c09Op) string {
 func c09Alphabet(cfg c09Cfg) []c09Op {
 	var ops []c09Op
 	full := cfg.alphabet == "full"
-	sets := []int{0, 1, 5} // core: {a1} {a2} {a1,a2}
+	sets := []int{0, 1, 2, 5, 7} // core: {a1} {a2} {a3} {a1,a2} {a1,a3}
 	addT := []int{c09TTemp, c09TConn}
 	setT := []int{c09TZero, c09TTemp, c09TRC, c09TConn}
 	type pr struct{ o, n int }
@@ -210,7 +211,11 @@ func c09Pick(cands []c09Model, p int, seen uint8) (c09Model, bool) {
 	return cands[0], false
 }
 
-func c09Apply(in *c09Inst, op c09Op) error {
+// c09Apply applies one operation to both books and to the models. full=false is used while a history PREFIX is
+// replayed (every prefix step was fully checked when it was the last step of a shorter history - seqmc is
+// level-synchronous BFS): the books and models are advanced, observations are made only where the model needs
+// them (eviction ties), and nothing is checked.
+func c09Apply(in *c09Inst, op c09Op, full bool) error {
 	if in.dead != "" {
 		return nil
 	}
@@ -219,26 +224,37 @@ func c09Apply(in *c09Inst, op c09Op) error {
 	cfg := in.cfg
 	id := u.peers[op.p]
 	class := c09OpClass(op)
-	before := in.m       // models before the operation
-	obsBefore := in.obs  // observations before the operation
+	if full && !in.fresh && (op.kind == c09ReadAddrs || op.kind == c09ReadRec || op.kind == c09Reopen) {
+		in.observe() // these operations compare with the answers before them
+	}
+	before := in.m      // models before the operation
+	obsBefore := in.obs // observations before the operation (meaningful only when fresh)
 	var cands [2][]c09Model
 	for s := range cands {
 		cands[s] = []c09Model{in.m[s]}
 	}
-	var memBefore, dsBefore string
+	var dsBefore string
 	var msBefore c09MemStats
 	var dsStBefore c09DSStats
-	if op.kind == c09GC || op.kind == c09ReadAddrs || op.kind == c09ReadRec {
-		memBefore, msBefore = in.memSnap()
-		dsBefore, dsStBefore = in.dsSnap()
+	var ghost [2]bool
+	if full {
+		if op.kind == c09GC || op.kind == c09ReadAddrs || op.kind == c09ReadRec {
+			_, msBefore = in.memSnap()
+			dsBefore, dsStBefore = in.dsSnap()
+		}
+		for s := range ghost {
+			ghost[s] = in.uncollected(s, op.p)
+		}
 	}
 	var vio error
 	fail := func(key, f string, a ...any) {
-		if vio == nil {
+		if vio == nil && full {
 			vio = seqmc.Violation(key, f, a...)
 		}
 	}
+	var evicting [2]bool
 	in.n++
+	in.fresh = false
 
 	switch op.kind {
 	case c09Add:
@@ -247,7 +263,7 @@ func c09Apply(in *c09Inst, op c09Op) error {
 		in.mem.AddAddrs(id, as, ttl)
 		in.dsb.AddAddrs(id, as, ttl)
 		for s := range cands {
-			cands[s] = in.m[s].add(op.p, c09Resolve(c09AddrSets[op.set]), ttl, now, cfg.cap)
+			cands[s] = in.m[s].add(op.p, c09Resolve(c09AddrSets[op.set]), ttl, now, cfg.cap, &evicting[s])
 		}
 	case c09Set:
 		as := u.addrs(op.p, op.set)
@@ -255,7 +271,7 @@ func c09Apply(in *c09Inst, op c09Op) error {
 		in.mem.SetAddrs(id, as, ttl)
 		in.dsb.SetAddrs(id, as, ttl)
 		for s := range cands {
-			cands[s] = in.m[s].set(op.p, c09Resolve(c09AddrSets[op.set]), ttl, now, cfg.cap)
+			cands[s] = in.m[s].set(op.p, c09Resolve(c09AddrSets[op.set]), ttl, now, cfg.cap, &evicting[s])
 		}
 	case c09Update:
 		in.mem.UpdateAddrs(id, c09TTLs[op.ttl], c09TTLs[op.ttl2])
@@ -298,28 +314,30 @@ func c09Apply(in *c09Inst, op c09Op) error {
 			if m.rec[op.p].ok && op.seq < m.rec[op.p].seq {
 				fail(c09StoreName[s]+"-consume-accepted-lower-seq", "record with seq %d accepted although the stored record has seq %d", op.seq, m.rec[op.p].seq)
 			}
-			cands[s] = m.consume(op.p, op.seq, op.set, c09TTLs[op.ttl], now, cfg.cap)
+			cands[s] = m.consume(op.p, op.seq, op.set, c09TTLs[op.ttl], now, cfg.cap, &evicting[s])
 		}
 		// "The in-memory and the datastore-backed books give the same answers"
 		if acc[0] != acc[1] || (errs[0] != nil) != (errs[1] != nil) {
-			fail("xstore-consume-answer-differs", "ConsumePeerRecord: mem=(%v,%v) ds=(%v,%v); model stored seq: mem-model %v, ds-model %v",
-				acc[0], errs[0], acc[1], errs[1], before[0].rec[op.p], before[1].rec[op.p])
+			fail("xstore-consume-answer-differs"+c09GhostSuffix(ghost[0] || ghost[1]), "ConsumePeerRecord: mem=(%v,%v) ds=(%v,%v); stored record per model: mem %s, ds %s",
+				acc[0], errs[0], acc[1], errs[1], c09EnvName(before[0].recCode(op.p)), c09EnvName(before[1].recCode(op.p)))
 		}
-		if op.kind == c09ConsumeBad {
-			if !acc[0] && !acc[1] {
-				c09Out("consume: bad signer refused")
-			}
-		} else {
-			m := before[1]
-			switch {
-			case !acc[1] && m.rec[op.p].ok && op.seq < m.rec[op.p].seq:
-				c09Out("consume: rejected lower seq")
-			case acc[1] && !m.rec[op.p].ok:
-				c09Out("consume: accepted first record")
-			case acc[1] && m.rec[op.p].seq == op.seq:
-				c09Out("consume: accepted same seq")
-			case acc[1]:
-				c09Out("consume: accepted higher seq")
+		if full {
+			if op.kind == c09ConsumeBad {
+				if !acc[0] && !acc[1] {
+					c09Out("consume: bad signer refused")
+				}
+			} else {
+				m := before[1]
+				switch {
+				case !acc[1] && m.rec[op.p].ok && op.seq < m.rec[op.p].seq:
+					c09Out("consume: rejected lower seq")
+				case acc[1] && !m.rec[op.p].ok:
+					c09Out("consume: accepted first record")
+				case acc[1] && m.rec[op.p].seq == op.seq:
+					c09Out("consume: accepted same seq")
+				case acc[1]:
+					c09Out("consume: accepted higher seq")
+				}
 			}
 		}
 	case c09Advance:
@@ -336,7 +354,7 @@ func c09Apply(in *c09Inst, op c09Op) error {
 		// harness self-check: the real books answer what the (cloned / pure) observation predicted
 		m, _, _ := c09AddrSet(in.mem.Addrs(id))
 		d, _, _ := c09AddrSet(in.dsb.Addrs(id))
-		if m != obsBefore[0].addrs[op.p] || d != obsBefore[1].addrs[op.p] {
+		if full && (m != obsBefore[0].addrs[op.p] || d != obsBefore[1].addrs[op.p]) {
 			in.dead = fmt.Sprintf("harness self-check: Addrs on the real books %s/%s differs from the non-perturbing observation %s/%s",
 				c09SetStr(m), c09SetStr(d), c09SetStr(obsBefore[0].addrs[op.p]), c09SetStr(obsBefore[1].addrs[op.p]))
 			return nil
@@ -344,7 +362,7 @@ func c09Apply(in *c09Inst, op c09Op) error {
 	case c09ReadRec:
 		m := c09EnvCode(in.mem.GetPeerRecord(id))
 		d := c09EnvCode(in.dsb.GetPeerRecord(id))
-		if m != obsBefore[0].rec[op.p] || d != obsBefore[1].rec[op.p] {
+		if full && (m != obsBefore[0].rec[op.p] || d != obsBefore[1].rec[op.p]) {
 			in.dead = fmt.Sprintf("harness self-check: GetPeerRecord on the real books %s/%s differs from the non-perturbing observation %s/%s",
 				c09EnvName(m), c09EnvName(d), c09EnvName(obsBefore[0].rec[op.p]), c09EnvName(obsBefore[1].rec[op.p]))
 			return nil
@@ -352,6 +370,20 @@ func c09Apply(in *c09Inst, op c09Op) error {
 	}
 
 	now = in.clk.now
+	if !full {
+		// prefix replay: advance the models; look at the books only to resolve a set-valued step
+		var seen [2]uint8
+		if len(cands[0]) > 1 || len(cands[1]) > 1 {
+			seen[0], seen[1] = in.observeAddrs(op.p)
+		}
+		for s := range in.m {
+			m, _ := c09Pick(cands[s], op.p, seen[s])
+			m.expire(now)
+			in.m[s] = m
+		}
+		return nil
+	}
+
 	in.observe()
 	if in.dead != "" {
 		return nil
@@ -366,10 +398,10 @@ func c09Apply(in *c09Inst, op c09Op) error {
 		m.expire(now)
 		in.m[s] = m
 	}
-	c09Classify(in, op, before, msBefore, dsStBefore, memBefore, dsBefore)
+	c09Classify(in, op, before, msBefore, dsStBefore, dsBefore)
 
 	for s := range in.m {
-		if err := c09Check(in, s, op, class, before[s]); err != nil && vio == nil {
+		if err := c09Check(in, s, op, class, before[s], evicting[s], ghost[s]); err != nil && vio == nil {
 			vio = err
 		}
 	}
@@ -380,7 +412,9 @@ func c09Apply(in *c09Inst, op c09Op) error {
 	// ---- cross-store and reopen oracles ----
 	// "The in-memory and the datastore-backed books give the same answers on every operation history": with both
 	// books equal to their (identical) model this is implied for Addrs and GetPeerRecord; it is asserted
-	// explicitly so that it also covers whatever a per-store oracle left open.
+	// explicitly so that it also covers whatever a per-store oracle left open. PeersWithAddrs is NOT compared
+	// across the stores: between GCs the statement lets a store keep listing a peer whose addresses have all
+	// expired, and when that stops depends on each store's GC mechanics.
 	if in.m[0] == in.m[1] {
 		for p := 0; p < cfg.peers; p++ {
 			if in.obs[0].addrs[p] != in.obs[1].addrs[p] {
@@ -393,14 +427,22 @@ func c09Apply(in *c09Inst, op c09Op) error {
 	}
 	// "the datastore-backed book gives the same answers after being closed and reopened on the same datastore"
 	if op.kind == c09Reopen && in.obs[1] != obsBefore[1] {
-		return seqmc.Violation("ds-reopen-changes-answers", "before reopen: %s; after: %s", obsBefore[1], in.obs[1])
+		return seqmc.Violation("ds-reopen-changes-answers"+c09GhostSuffix(ghost[1]), "before reopen: %s; after: %s", obsBefore[1], in.obs[1])
 	}
 	return nil
 }
 
+func c09GhostSuffix(g bool) string {
+	if g {
+		return "-with-uncollected-expired-state"
+	}
+	return ""
+}
+
 // c09Check: per-store oracles after one operation (s = 0 memory book, 1 datastore book).
-func c09Check(in *c09Inst, s int, op c09Op, class string, before c09Model) error {
+func c09Check(in *c09Inst, s int, op c09Op, class string, before c09Model, evicting, ghost bool) error {
 	name := c09StoreName[s]
+	sfx := c09GhostSuffix(ghost)
 	m := &in.m[s]
 	o := &in.obs[s]
 	for p := 0; p < in.cfg.peers; p++ {
@@ -416,7 +458,12 @@ func c09Check(in *c09Inst, s int, op c09Op, class string, before c09Model) error
 			if exp := extra & before.live(p); extra != 0 && exp == extra && op.kind == c09Advance {
 				why = " (expired addresses returned)"
 			}
-			return seqmc.Violation(name+"-"+class+"-wrong-set", "Addrs(p%d)=%s, the statement requires %s%s; model before the operation: %s",
+			clause := "-wrong-set"
+			if p == op.p && (evicting || (in.cfg.cap > 0 && (op.kind == c09Add || op.kind == c09Set) && c09TTLs[op.ttl] > 0 && before.live(p)&^o.addrs[p] != 0)) {
+				// a per-peer cap eviction is involved: the victim must be AN unconnected address with the nearest expiry
+				clause = "-cap-wrong-victim"
+			}
+			return seqmc.Violation(name+"-"+class+clause+sfx, "Addrs(p%d)=%s, the statement requires %s%s; model before the operation: %s",
 				p+1, c09SetStr(o.addrs[p]), c09SetStr(want), why, before.key(in.clk.now))
 		}
 		if o.dup[p] {
@@ -427,13 +474,13 @@ func c09Check(in *c09Inst, s int, op c09Op, class string, before c09Model) error
 		if want := m.recCode(p); o.rec[p] != want {
 			switch {
 			case want == -1 && m.live(p) == 0:
-				return seqmc.Violation(name+"-"+class+"-record-returned-without-live-address", "GetPeerRecord(p%d)=%s although p%d has no live address", p+1, c09EnvName(o.rec[p]), p+1)
+				return seqmc.Violation(name+"-"+class+"-record-returned-without-live-address"+sfx, "GetPeerRecord(p%d)=%s although p%d has no live address", p+1, c09EnvName(o.rec[p]), p+1)
 			case want == -1:
-				return seqmc.Violation(name+"-"+class+"-record-returned-after-all-expired-or-cleared", "GetPeerRecord(p%d)=%s: that record was dropped when all of p%d's addresses had expired / were cleared (or was never accepted); live now %s", p+1, c09EnvName(o.rec[p]), p+1, c09SetStr(m.live(p)))
+				return seqmc.Violation(name+"-"+class+"-record-returned-after-all-expired-or-cleared"+sfx, "GetPeerRecord(p%d)=%s: that record was dropped when all of p%d's addresses had expired / were cleared (or was never accepted); live now %s", p+1, c09EnvName(o.rec[p]), p+1, c09SetStr(m.live(p)))
 			case o.rec[p] == -1:
-				return seqmc.Violation(name+"-"+class+"-record-lost", "GetPeerRecord(p%d)=none, but %s was accepted and p%d has had live addresses ever since (live %s)", p+1, c09EnvName(want), p+1, c09SetStr(m.live(p)))
+				return seqmc.Violation(name+"-"+class+"-record-lost"+sfx, "GetPeerRecord(p%d)=none, but %s was accepted and p%d has had live addresses ever since (live %s)", p+1, c09EnvName(want), p+1, c09SetStr(m.live(p)))
 			default:
-				return seqmc.Violation(name+"-"+class+"-record-wrong", "GetPeerRecord(p%d)=%s, last accepted record is %s", p+1, c09EnvName(o.rec[p]), c09EnvName(want))
+				return seqmc.Violation(name+"-"+class+"-record-wrong"+sfx, "GetPeerRecord(p%d)=%s, last accepted record is %s", p+1, c09EnvName(o.rec[p]), c09EnvName(want))
 			}
 		}
 	}
@@ -470,7 +517,7 @@ func c09Check(in *c09Inst, s int, op c09Op, class string, before c09Model) error
 }
 
 // c09Classify counts outcome classes (non-vacuity evidence only, decides nothing).
-func c09Classify(in *c09Inst, op c09Op, before [2]c09Model, msB c09MemStats, dsB c09DSStats, memB, dsB2 string) {
+func c09Classify(in *c09Inst, op c09Op, before [2]c09Model, msB c09MemStats, dsB c09DSStats, dsB2 string) {
 	b, a := before[1], in.m[1]
 	p := op.p
 	switch op.kind {
@@ -612,6 +659,11 @@ var c09Dead atomic.Pointer[string]
 
 func c09Spec(t *testing.T, cfg c09Cfg) *seqmc.Spec[*c09Inst, c09Op] {
 	ops := c09Alphabet(cfg)
+	// seqmc explores level by level: while level L is expanded every history has L prefix operations (replayed
+	// with full=false) and one new operation (index L, fully checked). level only ever trails the real level
+	// (it is raised by Key, which runs after the last operation of an expansion), so the new operation is
+	// always checked in full; at worst a few prefix steps are re-checked at the start of a level.
+	var level atomic.Int32
 	return &seqmc.Spec[*c09Inst, c09Op]{
 		Name: cfg.String(),
 		New:  func() *c09Inst { return c09New(cfg) },
@@ -628,8 +680,16 @@ func c09Spec(t *testing.T, cfg c09Cfg) *seqmc.Spec[*c09Inst, c09Op] {
 			}
 			return ops
 		},
-		Apply:    c09Apply,
-		Key:      c09Key,
+		Apply: func(in *c09Inst, op c09Op) error { return c09Apply(in, op, int32(in.n) >= level.Load()) },
+		Key: func(in *c09Inst) string {
+			for {
+				l := level.Load()
+				if int32(in.n-1) <= l || level.CompareAndSwap(l, int32(in.n-1)) {
+					break
+				}
+			}
+			return c09Key(in)
+		},
 		Show:     c09Show,
 		Depth:    cfg.depth,
 		Bubble:   true, // pstoremem starts a ticker goroutine; inside the bubble it never ticks (virtual time)
@@ -704,6 +764,8 @@ func TestVerifC09(t *testing.T) {
 	r.Flush()
 }
 
+func c09InBubble(t *testing.T, f func()) { synctest.Test(t, func(*testing.T) { f() }) }
+
 // ---------- replay of one recorded history (check.py --replay) ----------
 
 func c09Replay(t *testing.T, path string) {
@@ -752,7 +814,7 @@ func c09Trace(t *testing.T, cfg c09Cfg, hist []string, byName map[string]c09Op, 
 				fmt.Printf("replay: unknown operation %q\n", h)
 				return
 			}
-			err := c09Apply(in, o)
+			err := c09Apply(in, o, true)
 			ms, _ := in.memSnap()
 			dss, _ := in.dsSnap()
 			fmt.Printf("%2d. %s\n      mem answers: %s\n      ds  answers: %s\n      model(mem): %s\n      model(ds):  %s\n      mem state: %s\n      ds  state: %s\n",
